@@ -47,4 +47,41 @@ def ids (w : World) : List Id := AMap.keys w
 def matching (w : World) (t : Token) : List Id :=
   ((ids w).filter (fun id => produces w id t)).foldl (fun acc id => insertSorted id acc) []
 
+/-! ### operations as the mutable world offers them -/
+
+def applyChange (w : World) : Change → World
+  | .addFeatures fs => fs.foldl (fun w f => addFeature w f.id f.tags) w
+  | .addTags ts => ts.foldl (fun w e => addTag w e.1 e.2) w
+  | .removeTags ts => ts.foldl (fun w e => removeTag w e.1 e.2) w
+
+def applyOp (w : World) : Op → World
+  | .addFeature f => addFeature w f.id f.tags
+  | .addTag id t => addTag w id t
+  | .removeTag id k => removeTag w id k
+  | .merged cs => cs.foldl applyChange w
+
+/-- the map after an operation which the world answered with `r`: applied when accepted, untouched
+when rejected -/
+def step (w : World) (op : Op) (r : Option Err) : World :=
+  match r with
+  | none => applyOp w op
+  | some _ => w
+
+/-- the map after a history, given what every call answered -/
+def run (w : World) : List Op → List (Option Err) → World
+  | op :: ops, r :: rs => run (step w op r) ops rs
+  | _, _ => w
+
+/-- the ids an operation names -/
+def changeIds : Change → List Id
+  | .addFeatures fs => fs.map (·.id)
+  | .addTags ts => ts.map (·.1)
+  | .removeTags ts => ts.map (·.1)
+
+def opIds : Op → List Id
+  | .addFeature f => [f.id]
+  | .addTag id _ => [id]
+  | .removeTag id _ => [id]
+  | .merged cs => cs.flatMap changeIds
+
 end B6.Spec.World
